@@ -366,5 +366,34 @@ Definition q_isMOne (a : rat) : bool := rcompare a (-1, 1) =? 0.
 Definition q_isZero (a : rat) : bool := rcompare a (0, 1) =? 0.
 Definition q_areEqual (a b : rat) : bool := rcompare a b =? 0.
 
+(* ------------------------------------------------------------------ conversions, printing, residue *)
+(* operator int / int64_t / uint64_t / uint32_t (and the narrower ones through them): (T)(num / den), i.e. trunc,
+   for values in the range of T (the Integer -> T conversion itself is C01) *)
+Definition conv_int (r : rat) : Z := divI (num r) (den r).
+(* Rational::print (operator<<, QField::write): `if (den > 1) s << num << "/" << den; else s << num;` *)
+Definition print_den (r : rat) : option Z := if den r >? 1 then Some (den r) else None.
+
+(* Integer::invin(res, r) = mpz_invert: the inverse in [0, |m|) when it exists.  Extended Euclid on
+   (r0, s0), (r1, s1) with s_i * a = r_i (mod m); the fuel 2*log2|m|+4 exceeds the number of division steps. *)
+Fixpoint inv_loop (n : nat) (r0 r1 s0 s1 : Z) : Z * Z :=
+  match n with
+  | O => (r0, s0)
+  | S n' => if r1 =? 0 then (r0, s0) else
+            let q := r0 / r1 in inv_loop n' r1 (r0 - q * r1) s1 (s0 - q * s1)
+  end.
+Definition invmodI (a m : Z) : option Z :=
+  let m' := Z.abs m in
+  let gs := inv_loop (Z.to_nat (2 * Z.log2 m' + 4)) m' (a mod m') 0 1 in
+  if fst gs =? 1 then Some (snd gs mod m') else None.
+(* Integer Rational::operator% (const Integer& r): outer None = GivMathDivZero; inner None = den has no inverse
+   modulo r (mpz_invert leaves its result unspecified: outside the domain) *)
+Definition rmod (x : rat) (r : Z) : option (option Z) :=
+  if isZeroI r then None else
+  if isZeroI (num x) then Some (Some (num x)) else
+  match invmodI (den x) r with
+  | Some i => Some (Some (i * num x))
+  | None => Some None
+  end.
+
 (* ------------------------------------------------------------------ wrappers for extraction *)
 Definition optpair (o : option rat) : bool * rat := match o with Some r => (true, r) | None => (false, (0, 0)) end.
